@@ -143,6 +143,42 @@ Example C15_refresh_targets_example :
   refresh_targets (step st (Tick (Z.to_N (48 * h_ns + 1)))) 0 [0; 1; 2; 3]%N [1; 2; 3]%N = [1; 2; 3]%N.
 Proof. vm_compute. repeat split; reflexivity. Qed.
 
+(* the system-wide hold, option core refresh.hold (unset / forever / a time): `allhold_after v ops` is its value after a
+   history (only SetAllHold changes it), `all_held v now` whether it is in force. While it is in force the scheduled
+   auto-refresh is not launched at all (autoRefresh.Ensure / isRefreshHeld): no snap is auto-refreshed ... *)
+Theorem C15_system_wide_hold_blocks_auto_refresh : forall (v : allhold) (st : state) (holders cands : list N),
+  all_held v (st_now st) = true -> auto_refresh_targets v st holders cands = [].
+Proof. exact all_held_blocks_auto_refresh. Qed.
+Print Assumptions C15_system_wide_hold_blocks_auto_refresh.
+
+Theorem C15_system_wide_hold_in_force : forall now : Z,
+  all_held None now = false /\ all_held (Some None) now = true /\ forall t, all_held (Some (Some t)) now = (now <? t).
+Proof. exact all_held_spec. Qed.
+Print Assumptions C15_system_wide_hold_in_force.
+
+(* ... `forever` blocks every later auto-refresh, whatever happens in between, until the option is set again ... *)
+Theorem C15_forever_blocks_every_later_auto_refresh : forall (ops : list op) (v : allhold) (st : state) (holders cands : list N),
+  (forall o, In o ops -> forall w, o <> SetAllHold w) ->
+  auto_refresh_targets (allhold_after v (SetAllHold (Some None) :: ops)) (hrun st (SetAllHold (Some None) :: ops)) holders cands = [].
+Proof. exact forever_blocks_every_later_auto_refresh. Qed.
+Print Assumptions C15_forever_blocks_every_later_auto_refresh.
+
+(* ... and in general (C15_held_not_refreshed extended): a snap goes on in a scheduled auto-refresh exactly when the
+   system-wide hold is not in force and none of its own holds is effective *)
+Theorem C15_auto_refresh_targets : forall (v : allhold) (st : state) (holders cands : list N) (s : N),
+  In s (auto_refresh_targets v st holders cands) <->
+  all_held v (st_now st) = false /\ In s cands /\ forall g, In g holders -> effective st 0 s g = false.
+Proof. exact auto_refresh_targets_spec. Qed.
+Print Assumptions C15_auto_refresh_targets.
+
+(* what the code does under the system-wide hold outside the scheduler: SnapHolds reports every snap as held by system;
+   a `snap refresh` of all snaps (refresh_targets at level 1) and of named snaps do not look at the option at all, nor do
+   HeldSnaps, filterHeldSnaps and snapsToRefresh — C15_refresh_targets is stated without it *)
+Theorem C15_snap_holds_under_system_wide_hold : forall (v : allhold) (st : state) (s : N),
+  all_held v (st_now st) = true -> snap_holds_system v st s = true.
+Proof. exact snap_holds_under_all_hold. Qed.
+Print Assumptions C15_snap_holds_under_system_wide_hold.
+
 (* gate-auto-refresh hook runs (snapctl refresh --hold / --proceed, then the hook handler's Done / Error): `Hook g snaps
    script fails` is expanded by hook_ops into the HoldRefresh / ProceedWithRefresh calls the code makes; hstep / hrun run
    histories that contain hook runs. *)
